@@ -37,6 +37,22 @@ j_ = z3.Int('j!sg')
 c.ensure('parameter_names_are_distinct', lambda x: sym.forall([i_, j_], z3.Implies(
     z3.And(0 <= i_, i_ < j_, j_ < x.result.fields['args'].len),
     x.result.fields['args'].arr[i_] != x.result.fields['args'].arr[j_])))
+def sigpos(fn, s):
+  """Position of the parameter name `s` in the signature of `fn`, positional parameters first,
+  then the keyword-only ones (well defined because Python rejects duplicate parameter names)."""
+  return sym.ufun('sigpos', sym.Val, sym.Str, sym.IntS)(fn, s)
+
+
+c.ensure('positions_in_the_signature', lambda x: z3.And(
+    sym.forall([i_], z3.Implies(
+        z3.And(0 <= i_, i_ < x.result.fields['args'].len),
+        sigpos(x.a.fn.e, x.result.fields['args'].arr[i_]) == i_),
+        patterns=[x.result.fields['args'].arr[i_]]),
+    sym.forall([i_], z3.Implies(
+        z3.And(0 <= i_, i_ < x.result.fields['kwonlyargs'].len),
+        sigpos(x.a.fn.e, x.result.fields['kwonlyargs'].arr[i_]) ==
+        x.result.fields['args'].len + i_),
+        patterns=[x.result.fields['kwonlyargs'].arr[i_]])))
 c.ensure('defaults_fit', lambda x: z3.And(
     x.result.fields['args'].len >= 0,
     z3.Implies(z3.Not(x.result.fields['defaults'].is_none),
@@ -69,8 +85,11 @@ c.ensure('args_without_the_defaulted_tail', lambda x: z3.And(
 c.raises_only_listed = True
 register(c)
 
+m_ = z3.Int('m!sg')
+
+
 def _member(lst, s):
-  return z3.Exists([i_], z3.And(0 <= i_, i_ < lst.len, lst.arr[i_] == s))
+  return z3.Exists([m_], z3.And(0 <= m_, m_ < lst.len, lst.arr[m_] == s))
 
 
 c = Contract('config.py::_order_by_signature', ['C10'])
@@ -80,6 +99,73 @@ c.result = StrList
 c.local_kinds = {'all_args': StrList, 'ordered': StrList}
 c.ensure('same_names', lambda x: sym.forall([s_], _member(x.result, s_) ==
                                             _member(x.a.arg_names, s_)))
+
+
+def _insig(fn, s):
+  return z3.Or(_member(ARGS(fn), s), _member(argspec(fn).fields['kwonlyargs'], s))
+
+
+def _is_filter_assign(st):
+  import ast
+  return isinstance(st, ast.Assign) and isinstance(st.value, ast.ListComp) and \
+      bool(st.value.generators[0].ifs)
+
+
+def _obs_all(x):
+  """(combined list, filtered list, args, kwonlyargs) -- hints only, skipped if renamed."""
+  return (x.env.all_args, x.env.ordered, ARGS(x.a.fn.e), argspec(x.a.fn.e).fields['kwonlyargs'])
+
+
+def _h_combined(x):
+  aa, o, args, kw = _obs_all(x)
+  return z3.And(
+      aa.len == args.len + kw.len,
+      sym.forall([i_], z3.Implies(z3.And(0 <= i_, i_ < args.len), aa.arr[i_] == args.arr[i_]),
+                 patterns=[args.arr[i_]]),
+      sym.forall([i_], z3.Implies(z3.And(0 <= i_, i_ < kw.len),
+                                  aa.arr[args.len + i_] == kw.arr[i_]),
+                 patterns=[kw.arr[i_]]))
+
+
+def _h_positions(x):
+  aa, o, args, kw = _obs_all(x)
+  return sym.forall([i_], z3.Implies(
+      z3.And(0 <= i_, i_ < aa.len),
+      z3.And(sigpos(x.a.fn.e, aa.arr[i_]) == i_, _insig(x.a.fn.e, aa.arr[i_]))),
+      patterns=[aa.arr[i_]])
+
+
+def _h_sorted(x):
+  aa, o, args, kw = _obs_all(x)
+  return sym.forall([i_, j_], z3.Implies(
+      z3.And(0 <= i_, i_ < j_, j_ < o.len),
+      sigpos(x.a.fn.e, o.arr[i_]) < sigpos(x.a.fn.e, o.arr[j_])),
+      patterns=[[o.arr[i_], o.arr[j_]]])
+
+
+def _h_each_in_sig(x):
+  aa, o, args, kw = _obs_all(x)
+  return sym.forall([i_], z3.Implies(z3.And(0 <= i_, i_ < o.len), _insig(x.a.fn.e, o.arr[i_])),
+                    patterns=[o.arr[i_]])
+
+
+def _h_complete(x):
+  aa, o, args, kw = _obs_all(x)
+  return sym.forall([i_], z3.Implies(
+      z3.And(0 <= i_, i_ < aa.len, _member(x.a.arg_names, aa.arr[i_])),
+      _member(o, aa.arr[i_])), patterns=[aa.arr[i_]])
+
+
+c.hint(_is_filter_assign, 'combined_list_is_args_then_kwonlyargs', _h_combined)
+c.hint(_is_filter_assign, 'combined_list_positions', _h_positions)
+c.hint(_is_filter_assign, 'filtered_list_is_sorted_by_position', _h_sorted)
+c.hint(_is_filter_assign, 'filtered_list_holds_signature_names', _h_each_in_sig)
+c.hint(_is_filter_assign, 'filtered_list_holds_every_named_signature_parameter', _h_complete)
+c.ensure('parameters_of_the_signature_come_first_and_in_signature_order',
+         lambda x: sym.forall([i_, j_], z3.Implies(
+             z3.And(0 <= i_, i_ < j_, j_ < x.result.len, _insig(x.a.fn.e, x.result.arr[j_])),
+             z3.And(_insig(x.a.fn.e, x.result.arr[i_]),
+                    sigpos(x.a.fn.e, x.result.arr[i_]) < sigpos(x.a.fn.e, x.result.arr[j_])))))
 c.raises_only_listed = True
 register(c)
 
